@@ -385,3 +385,70 @@ Proof.
   - intros H. apply parse_uint_digits; try assumption; lia.
   - intros k. apply dec_val_zeros.
 Qed.
+
+(* ------------------------------------------------------------------ printing in plain decimal *)
+From Coq Require Import DecimalN DecimalPos.
+
+Fixpoint uint_str (u : Decimal.uint) : str :=
+  match u with
+  | Decimal.Nil => []
+  | Decimal.D0 r => "0"%char :: uint_str r
+  | Decimal.D1 r => "1"%char :: uint_str r
+  | Decimal.D2 r => "2"%char :: uint_str r
+  | Decimal.D3 r => "3"%char :: uint_str r
+  | Decimal.D4 r => "4"%char :: uint_str r
+  | Decimal.D5 r => "5"%char :: uint_str r
+  | Decimal.D6 r => "6"%char :: uint_str r
+  | Decimal.D7 r => "7"%char :: uint_str r
+  | Decimal.D8 r => "8"%char :: uint_str r
+  | Decimal.D9 r => "9"%char :: uint_str r
+  end.
+
+(* strconv.FormatUint(n, 10) / fmt's %d of a non-negative number: no sign, no leading zeros, "0" for 0 *)
+Definition dec (n : N) : str := uint_str (N.to_uint n).
+
+(* %03d of a non-negative number: padded with zeros to at least three digits *)
+Definition dec3 (n : N) : str := repeat "0"%char (3 - length (dec n)) ++ dec n.
+
+Lemma uint_str_digits u : all_digits (uint_str u) = true.
+Proof. induction u; cbn; [reflexivity|exact IHu..]. Qed.
+
+Lemma dec_val_uint_acc u : forall acc, dec_val_from (Npos acc) (uint_str u) = Npos (Pos.of_uint_acc u acc).
+Proof.
+  induction u as [|u IH|u IH|u IH|u IH|u IH|u IH|u IH|u IH|u IH|u IH]; intros acc;
+    [reflexivity|
+     cbn [uint_str dec_val_from Pos.of_uint_acc]; rewrite <- IH; f_equal;
+     match goal with |- context [digit_val ?c] => let v := eval vm_compute in (digit_val c) in change (digit_val c) with v end;
+     lia..].
+Qed.
+
+Lemma dec_val_uint u : dec_val (uint_str u) = Pos.of_uint u.
+Proof.
+  unfold dec_val.
+  induction u as [|u IH|u IH|u IH|u IH|u IH|u IH|u IH|u IH|u IH|u IH];
+    [reflexivity|exact IH|cbn [uint_str dec_val_from Pos.of_uint]; rewrite <- dec_val_uint_acc; reflexivity..].
+Qed.
+
+Theorem dec_spec n : dec n <> [] /\ all_digits (dec n) = true /\ dec_val (dec n) = n.
+Proof.
+  unfold dec. split; [|split].
+  - destruct n as [|p]; [discriminate|]. cbn [N.to_uint].
+    pose proof (DecimalPos.Unsigned.to_uint_nonnil p) as H. destruct (Pos.to_uint p); [congruence|discriminate..].
+  - apply uint_str_digits.
+  - rewrite dec_val_uint. change (Pos.of_uint (N.to_uint n)) with (N.of_uint (N.to_uint n)).
+    apply DecimalN.Unsigned.of_to.
+Qed.
+
+Theorem dec3_spec n : dec3 n <> [] /\ all_digits (dec3 n) = true /\ dec_val (dec3 n) = n.
+Proof.
+  destruct (dec_spec n) as (H1 & H2 & H3). unfold dec3. split; [|split].
+  - destruct (repeat "0"%char (3 - length (dec n))); [exact H1|discriminate].
+  - unfold all_digits in *. rewrite forallb_app, H2, andb_true_r.
+    induction (3 - length (dec n)) as [|k IH]; [reflexivity|exact IH].
+  - rewrite dec_val_zeros. exact H3.
+Qed.
+
+Example dec_examples :
+  dec 0 = s2l "0" /\ dec 1690000000 = s2l "1690000000" /\ dec3 7 = s2l "007" /\ dec3 999 = s2l "999" /\
+  dec3 1234 = s2l "1234" /\ dec 4294967295 = s2l "4294967295".
+Proof. vm_compute. repeat split; reflexivity. Qed.
